@@ -484,7 +484,10 @@ pub fn run(run: &Run) {
                 let y: Vec<f64> = w.iter().map(|&i| al[i]).collect();
                 let code: usize = w.iter().fold(0, |a, &d| a * 7 + d);
                 for (dname, x, p) in &ds {
-                    for (wi, wopt) in [None, Some(wpat.clone())].into_iter().enumerate() {
+                    // prior weights: none, a positive pattern, and a pattern with exact zeros in interior rows (an
+                    // observation of weight zero does not enter the fit)
+                    let wzero: Vec<f64> = (0..n).map(|i| [1.0, 0.0, 2.0, 1.0, 0.0, 1.0, 3.0, 1.0][i % 8]).collect();
+                    for (wi, wopt) in [None, Some(wpat.clone()), Some(wzero)].into_iter().enumerate() {
                         for (oi, oopt) in [None, Some(opat.clone())].into_iter().enumerate() {
                             // thin the cross product deterministically: every (weights,offset) combination on
                             // a quarter of the responses, the plain one on all
